@@ -21,8 +21,21 @@ ASSUMPTIONS = ["the theorem `optimize_flag_sound` quantifies over the goal state
                "numpy Generator stream, kappa values and heapq as in C07"]
 
 
+def _wire_then_gate(rng):
+    """optimum = wire cut of a qubit followed by a gate cut of a cheap gate on that same qubit (expensive gates around it)"""
+    perm = [0, 1, 2]
+    rng.shuffle(perm)
+    big, small = rng.choice(["swap", "iswap"]), rng.choice(["cx", "cz", "cy"])
+    base = [(big, 1, 0), (big, 2, 1), (small, 1, 0), (big, 2, 1)]
+    instrs = [{"name": n, "qubits": [perm[a], perm[b]]} for n, a, b in base]
+    return {"nq": 3, "instrs": instrs, "seed": rng.randrange(1 << 30), "max_gamma": 1e6, "max_backjumps": None,
+            "gate_lo": True, "wire_lo": True, "width": 2, "exact": False}
+
+
 def cases(rng, tier):
     N = 120 if tier == "quick" else 1500
+    for _ in range(4 if tier == "quick" else 30):
+        yield ("find_cuts", _wire_then_gate(rng))
     for _ in range(N):
         r0 = rng.random()
         if r0 < 0.15:
